@@ -3,7 +3,7 @@
 import json, subprocess
 
 HOOK_COMMITS = ["ac08067"]
-FIX_COMMITS = ["ee1d815", "296be57", "098316b", "7098e6b", "bcffdd6", "589a9d1", "787a52b", "01dcc1c", "13be19f", "eb8a8e1", "143bda1", "08fee98", "76d9565", "2fac958", "f13a010", "e0e2fbb"]
+FIX_COMMITS = ["ee1d815", "296be57", "098316b", "7098e6b", "bcffdd6", "589a9d1", "787a52b", "01dcc1c", "13be19f", "eb8a8e1", "143bda1", "08fee98", "76d9565", "2fac958", "f13a010", "e0e2fbb", "6b377b1", "88e0012"]
 
 # id -> (technique, level text, level note, design ref)
 CHECKS = {
@@ -55,6 +55,18 @@ CHECKS = {
  "C04": ("bounded-exhaustive enumeration of vftable descriptions (E1) against a slot-assignment model; table layout asserted by rustc on both widths; dispatch executed on the host against two fake tables of recording stubs (X)",
          "Every assignment of {no index, index 0..6} to up to 3 functions (4 in thorough) x four declared table sizes: contradictions must be rejected, accepted tables are compiled with offset_of!/size_of asserts at widths 4 and 8 and their placeholder slots counted with syn. Execution: index patterns x receivers x arguments x return types, on the owning type, a derived type inheriting the table and a derived type extending it; two objects carry two different fake tables whose entries are recording stubs; every emitted wrapper is run: one call, into the declared slot of that object's table, receiver = object, arguments in order, result returned.",
          "First base carrying the vftable pointer at offset 0; SysV extern \"C\" for stubs; execution on the 64-bit host.", "DESIGN.md §6 C04"),
+ "C06": ("bounded-exhaustive enumeration of inheritance shapes and of single-slot mutations of a compatible vftable prefix (E1); rustc layout asserts on both widths, syn inspection, vftable() executed on the host (X)",
+         "All 2 650 shapes over up to 4 types (ordered lists of up to 3 earlier types as bases, own vftable block or not) and a three-function base table whose derived block is the compatible prefix, an extension, or one of every single-slot mutation (name, receiver mutability, parameter type, return type, convention, dropped slot, swapped slots) in three inheritance forms: every mutation must be rejected; for accepted shapes rustc asserts base offsets, sizes and the own vftable pointer at offset 0 followed by the first declared field, syn checks presence/absence of the vftable field and the accessor's table type, and the accessor is executed: it returns the pointer planted at the start of the object.",
+         "Only `accepted => compatible` is claimed (compatible-but-rejected is counted). The reference model lays out pointer, bases, own field sequentially.", "DESIGN.md §6 C06"),
+ "C07": ("bounded-exhaustive enumeration of hierarchies with impl functions (E1) against a model of the exposure relation; every emitted method and conversion executed on the host against recording stubs (X)",
+         "Every shape over up to 3 types x five impl-function assignments per type over clashing names (public/private, three receiver forms, public/private virtual functions), and the 4-type shapes with diamonds: for every (base field, public function of the base's type incl. inherited, public virtual function of a non-first base) the derived type must have a public method under the original name or the field-prefixed name whose execution reaches the original's address or vftable slot exactly once with the receiver at the base sub-object's offset; AsRef/AsMut to each base type occurring once must return that sub-object's address and must be absent for types occurring more than once.",
+         "Functions take only a receiver here (argument passing is C04/C05). When `<field>_<name>` is itself taken the statement names no alternative and further field prefixes are accepted.", "DESIGN.md §6 C07"),
+ "C13": ("bounded-exhaustive description spaces (E1) whose every accepted output is type-checked in full by rustc for x86_64 and for i686-pc-windows-msvc",
+         "The accepted cases of the layout space, a dedicated marker space (every subset of copyable/cloneable/defaultable/packed x eleven field kinds x same/cross module), and the carry-over, convention, scoping, enum, hierarchy and module-set spaces are assembled into crates (modules mirroring the input tree, extern types supplied) and type-checked including bodies: on the host with calling conventions normalised to C and, unmodified, for i686-pc-windows-msvc. Zero errors required; deny-by-default lints count.",
+         "Quick tier strides through the larger source spaces. Three defect classes are listed as known findings (packed type embedding a struct, duplicate enum values, user type named like a built-in).", "DESIGN.md §6 C13"),
+ "C15": ("bounded-exhaustive enumeration of singleton / extern-value declarations (E1); accessors executed on the host with data pages mapped at the declared absolute addresses (X), literals read with syn (S)",
+         "#[singleton(A)] on a struct and on an enum and `extern v: T` with #[address(A)] for seven types, A over five mappable and four unmappable addresses in three spellings, public and private: struct get() is None for null and otherwise exactly the planted object (one indirection), enum get() returns the stored value, get_v() refers to address A; accessor type, visibility, address literal and indirection level are checked in the text at both widths; an extern value without address must be rejected.",
+         "Linux mmap(MAP_FIXED_NOREPLACE) semantics; execution on the 64-bit host.", "DESIGN.md §6 C15"),
 }
 
 NOT_YET = {
